@@ -52,6 +52,35 @@ theorem Str.setO_same {P s} (h : Str P s) (i : ObjId) (o : Obj)
   · intro j j' k h1 h2; simp only [setO] at *; have := h.inj j j' k; grind
   · exact h.addedSorted
 
+/-- `Str` only looks at `_p_oid/_p_jar`, `_cache`, `_added` (and oids stay below the counter) -/
+theorem Str.transfer {P s s'} (h : Str P s)
+    (ho : ∀ j, (s'.objs j).oid = (s.objs j).oid ∧ (s'.objs j).jar = (s.objs j).jar)
+    (hc : s'.cache = s.cache) (ha : s'.added = s.added) (hn : s.nextOid ≤ s'.nextOid) : Str P s' := by
+  constructor
+  · intro k j hj; rw [hc] at hj; rw [(ho j).1]; exact h.cacheS k j hj
+  · intro k j hj; rw [ha] at hj; rw [(ho j).1, hc]; exact h.addedS k j hj
+  · intro j; rw [(ho j).1, (ho j).2]; exact h.jarOid j
+  · intro j k hj; rw [(ho j).1] at hj; rw [hc, ha]; exact h.known j k hj
+  · intro j k hj; rw [(ho j).1] at hj; have := h.fresh j k hj; omega
+  · intro j j' k h1 h2; rw [(ho j).1] at h1; rw [(ho j').1] at h2; exact h.inj j j' k h1 h2
+  · rw [ha]; exact h.addedSorted
+
+/-- an object that is in `_cache` or `_added` need not be listed as pending -/
+theorem Str.drop {P s} {i k : Nat} (h : Str (i :: P) s) (hk : (s.objs i).oid = some k)
+    (hkn : s.cache.get k = some i ∨ s.added.get k = some i) : Str P s := by
+  refine ⟨h.cacheS, h.addedS, h.jarOid, ?_, h.fresh, h.inj, h.addedSorted⟩
+  intro j k' hj
+  rcases h.known j k' hj with h1 | h1 | h1
+  · exact Or.inl h1
+  · exact Or.inr (Or.inl h1)
+  · rcases List.mem_cons.1 h1 with h2 | h2
+    · subst h2
+      rw [hk] at hj; cases hj
+      rcases hkn with h3 | h3
+      · exact Or.inl h3
+      · exact Or.inr (Or.inl h3)
+    · exact Or.inr (Or.inr h2)
+
 theorem access_str {P s} (h : Str P s) (i) : Str P (access s i).1 := by
   unfold access
   dsimp only
